@@ -18,7 +18,7 @@ import (
 
 var (
 	c16UDP = []string{"answer", "tc-empty", "tc-with-records", "silent", "nxdomain", "tc-servfail"}
-	c16TCP = []string{"answers", "dial-refused", "abort-after-write", "silent", "answers-tc-again", "garbage"}
+	c16TCP = []string{"answers", "dial-refused", "abort-after-write", "silent", "answers-tc-again", "garbage", "silent-then-late-reply"}
 	c16Q   = []string{"A", "TXT", "A+OPT", "AAAA-mixedcase"}
 )
 
@@ -129,6 +129,11 @@ func c16Scenario(c *choice.Ctx, rep *report.R) {
 						}
 					}
 					switch c16TCP[ti] {
+					case "silent-then-late-reply":
+						if round == 1 { // the second exchange is answered properly
+							tcpReply = env.Answer(tq, byte(70+round), 60)
+							td.ImplEnd(ci).Inject(refdns.Frame(tcpReply.Encode(false)))
+						}
 					case "answers":
 						tcpReply = env.Answer(tq, byte(50+round), 60)
 						td.ImplEnd(ci).Inject(refdns.Frame(tcpReply.Encode(false)))
@@ -200,6 +205,16 @@ func c16Scenario(c *choice.Ctx, rep *report.R) {
 		obs += cl.String() + ";"
 		hsleep(7 * time.Second)
 		wait()
+		if tc && c16TCP[ti] == "silent-then-late-reply" && round == 0 {
+			// the reply to the timed-out TCP query arrives now, long after everybody gave up
+			for i := 0; i < td.NumConns(); i++ {
+				if qs := env.QueriesOn(i, td.ImplEnd(i), true); len(qs) > 0 && qs[len(qs)-1].Msg != nil && !td.ImplEnd(i).IsClosed() {
+					late := env.Answer(qs[len(qs)-1].Msg, 99, 60)
+					td.ImplEnd(i).Inject(refdns.Frame(late.Encode(false)))
+				}
+			}
+			wait()
+		}
 	}
 	u.Close()
 	hsleep(7 * time.Second)
